@@ -4,5 +4,10 @@
 here="$(cd "$(dirname "$0")" && pwd)"
 for spec in "$@"; do echo "$spec"; done | xargs -P 3 -n 1 sh -c '
   s="${0%%:*}"; ids=$(echo "${0#*:}" | tr "," " ")
-  out=$('"$here"'/try_seed.sh '"$here"'/../seeded/$s/patch.diff $ids 2>&1 | sed -e "s/^\(\[C[0-9]*\]\) KNOWN-FINDING.*\(VIOLATION\|OK property\|MACHINERY\)/\1 \2/" | grep -o "^\[C[0-9]*\] \(VIOLATION[^(]*([^:]*:[^:]*\|OK\|MACHINERY[^:]*\|KNOWN\)" | sed -e "s/property=[A-Z0-9]* replay=[^ ]* *//" | tr "\n" " ")
+  out=$('"$here"'/try_seed.sh '"$here"'/../seeded/$s/patch.diff $ids 2>&1 | awk "
+    /^\[C[0-9]+\]/ { id = \$1 }
+    { if (match(\$0, /VIOLATION[^(]*\([^ ]*/)) { v = substr(\$0, RSTART, RLENGTH); sub(/VIOLATION[^(]*\(/, \"\", v); if (!(id in n)) n[id] = 0; if (n[id]++ < 3) r[id] = r[id] \" \" v }
+      else if (\$0 ~ /OK property=/) r[id] = r[id] \" OK\"
+      else if (\$0 ~ /MACHINERY/) r[id] = r[id] \" MACHINERY-FAILURE\" }
+    END { for (i in r) printf \"%s%s  \", i, r[i] }")
   echo "$s: $out"'
